@@ -810,11 +810,18 @@ def _quotes_for_string_value(value: str) -> str | None:
         return '"'
     if '"' in value:
         return "'"
-    if ' ' in value:
+    if ' ' in value or '\t' in value:
         return "'"
     if not value:
         return "'"  # so that empty strings are shown as ''
+    if value[0] in '_#$[];' or _is_reserved_word(value):
+        return "'"  # would not be parsed as a value without quotes
     return None
+
+
+def _is_reserved_word(value: str) -> bool:
+    lower = value.lower()
+    return lower.startswith(('data_', 'save_')) or lower in ('loop_', 'stop_', 'global_')
 
 
 def _encode_non_ascii(s: str) -> str:
